@@ -449,6 +449,169 @@ def build_tables():
     return "\n".join(parts) + "\n"
 
 
+# ---- contact schemes: which atoms each scheme designates (T3-style: predicates -> DSL terms) -----------------
+def _element_symbols():
+    """python name of the module-level Element objects of element.py -> chemical symbol"""
+    text = _src("mdtraj/core/element.py")
+    out = {}
+    for n in ast.parse(text).body:
+        if isinstance(n, ast.Assign) and isinstance(n.value, ast.Call) and ast.unparse(n.value.func) == "Element" \
+                and len(n.value.args) == 5 and isinstance(n.value.args[2], ast.Constant):
+            out[ast.unparse(n.targets[0])] = n.value.args[2].value
+    return out
+
+
+def apred_to_coq(node, var, elems):
+    """condition of a comprehension over atoms bound to `var` -> apred term"""
+    u = ast.unparse(node)
+    if isinstance(node, ast.UnaryOp) and isinstance(node.op, ast.Not):
+        return "(PNot %s)" % apred_to_coq(node.operand, var, elems)
+    if isinstance(node, ast.BoolOp):
+        k = "PAnd" if isinstance(node.op, ast.And) else "POr"
+        t = apred_to_coq(node.values[0], var, elems)
+        for v in node.values[1:]:
+            t = "(%s %s %s)" % (k, t, apred_to_coq(v, var, elems))
+        return t
+    if u == "%s.is_sidechain" % var:
+        return "PSidechain"
+    if u == "%s.is_backbone" % var:
+        return "PBackbone"
+    if isinstance(node, ast.Compare) and len(node.ops) == 1 and isinstance(node.ops[0], (ast.Eq, ast.NotEq)):
+        l, r = ast.unparse(node.left), node.comparators[0]
+        t = None
+        if l == "%s.name.lower()" % var and isinstance(r, ast.Constant) and isinstance(r.value, str):
+            t = "(PNameLowerEq %s)" % cstr(r.value)
+        elif l == "%s.name" % var and isinstance(r, ast.Constant) and isinstance(r.value, str):
+            t = "(PNameEq %s)" % cstr(r.value)
+        elif l == "%s.element" % var and ast.unparse(r).startswith("element.") and ast.unparse(r)[8:] in elems:
+            t = "(PElemIs %s)" % cstr(elems[ast.unparse(r)[8:]])
+        if t is not None:
+            return t if isinstance(node.ops[0], ast.Eq) else "(PNot %s)" % t
+    raise Untranslatable("atom predicate outside the grammar: " + u)
+
+
+def rpred_to_coq(node, var):
+    u = ast.unparse(node)
+    if isinstance(node, ast.UnaryOp) and isinstance(node.op, ast.Not):
+        return "(RNot %s)" % rpred_to_coq(node.operand, var)
+    if isinstance(node, ast.Compare) and len(node.ops) == 1 and isinstance(node.ops[0], (ast.Eq, ast.NotEq)) \
+            and ast.unparse(node.left) == "%s.name" % var and isinstance(node.comparators[0], ast.Constant):
+        t = "(RNameEq %s)" % cstr(node.comparators[0].value)
+        return t if isinstance(node.ops[0], ast.Eq) else "(RNot %s)" % t
+    raise Untranslatable("residue predicate outside the grammar: " + u)
+
+
+def _atom_comp(node, elems, over=None):
+    """[a.index for a in <residue>.atoms if cond...] or a generator with the same shape -> (apred, iter text)"""
+    if not isinstance(node, (ast.ListComp, ast.GeneratorExp)) or len(node.generators) != 1:
+        raise Untranslatable("expected a single comprehension: " + ast.unparse(node))
+    g = node.generators[0]
+    if not isinstance(g.target, ast.Name):
+        raise Untranslatable("comprehension target")
+    var = g.target.id
+    if ast.unparse(node.elt) not in ("%s.index" % var, var):
+        raise Untranslatable("comprehension element: " + ast.unparse(node.elt))
+    it = ast.unparse(g.iter)
+    if not it.endswith(".atoms"):
+        raise Untranslatable("comprehension does not range over the atoms of a residue: " + it)
+    if not g.ifs:
+        return "PTrue", it
+    t = apred_to_coq(g.ifs[0], var, elems)
+    for c in g.ifs[1:]:
+        t = "(PAnd %s %s)" % (t, apred_to_coq(c, var, elems))
+    return t, it
+
+
+def member_to_coq(node, resvar, elems):
+    if isinstance(node, ast.IfExp):
+        return "(MIfRes %s %s %s)" % (rpred_to_coq(node.test, resvar), member_to_coq(node.body, resvar, elems),
+                                      member_to_coq(node.orelse, resvar, elems))
+    p, it = _atom_comp(node, elems)
+    if it != "%s.atoms" % resvar:
+        raise Untranslatable("membership ranges over " + it)
+    return "(MFilter %s)" % p
+
+
+def build_schemes():
+    text = _src("mdtraj/geometry/contact.py")
+    fn = _find_func(ast.parse(text), "compute_contacts")
+    elems = _element_symbols()
+    table = {}
+    ca_preds, keep_preds, seps, chain_ok = [], [], [], []
+    for n in ast.walk(fn):
+        # residue_membership = [<member> for residue in traj.topology.residues] under `if scheme == "<name>":`
+        if isinstance(n, ast.If) and isinstance(n.test, ast.Compare) and ast.unparse(n.test.left) == "scheme" \
+                and len(n.test.ops) == 1 and isinstance(n.test.ops[0], ast.Eq) \
+                and isinstance(n.test.comparators[0], ast.Constant):
+            name = n.test.comparators[0].value
+            for st in n.body:
+                if isinstance(st, ast.Assign) and ast.unparse(st.targets[0]) == "residue_membership":
+                    v = st.value
+                    if not (isinstance(v, ast.ListComp) and len(v.generators) == 1 and not v.generators[0].ifs
+                            and isinstance(v.generators[0].target, ast.Name)
+                            and ast.unparse(v.generators[0].iter) in ("traj.topology.residues", "traj.top.residues")):
+                        raise Untranslatable("residue_membership of scheme %s" % name)
+                    table[name] = member_to_coq(v.elt, v.generators[0].target.id, elems)
+        if isinstance(n, ast.Assign) and ast.unparse(n.targets[0]) in ("ca_atoms_0", "ca_atoms_1"):
+            ca_preds.append(_atom_comp(n.value, elems)[0])
+        # contacts == 'all': `not any(a for a in residue_x.atoms if ...)`
+        if isinstance(n, ast.Call) and ast.unparse(n.func) == "any" and len(n.args) == 1 \
+                and isinstance(n.args[0], ast.GeneratorExp):
+            keep_preds.append(_atom_comp(n.args[0], elems)[0])
+        if isinstance(n, ast.For) and ast.unparse(n.target) == "j" and isinstance(n.iter, ast.Call) \
+                and ast.unparse(n.iter.func) == "range" and len(n.iter.args) == 2:
+            lo = n.iter.args[0]
+            if not (isinstance(lo, ast.BinOp) and isinstance(lo.op, ast.Add) and ast.unparse(lo.left) == "i"
+                    and isinstance(lo.right, ast.Constant) and ast.unparse(n.iter.args[1]) == "traj.n_residues"):
+                raise Untranslatable("inner loop of contacts='all': " + ast.unparse(n.iter))
+            seps.append(int(lo.right.value))
+            for st in ast.walk(n):
+                if isinstance(st, ast.If) and ast.unparse(st.test) in ("residue_i.chain == residue_j.chain",
+                                                                       "residue_j.chain == residue_i.chain"):
+                    chain_ok.append(True)
+    want = ["closest", "closest-heavy", "sidechain", "sidechain-heavy"]
+    if sorted(table) != sorted(want):
+        raise Untranslatable("schemes found: %s" % sorted(table))
+    if len(ca_preds) != 2 or ca_preds[0] != ca_preds[1]:
+        raise Untranslatable("CA predicate of scheme 'ca': %s" % ca_preds)
+    if len(keep_preds) != 2 or keep_preds[0] != keep_preds[1]:
+        raise Untranslatable("CA test of contacts='all': %s" % keep_preds)
+    if len(seps) != 1 or chain_ok != [True]:
+        raise Untranslatable("loops of contacts='all' (separation %s, chain test %s)" % (seps, chain_ok))
+    lines = ["(* GENERATED by harness/props/C16.py:translate from /repo -- do not edit. *)",
+             "From Coq Require Import String List.", "Import ListNotations.", "Require Import MD.Desc.SchemeDsl.", "",
+             "(* mdtraj/geometry/contact.py:compute_contacts: residue_membership per scheme *)",
+             "Definition scheme_members : list (string * member) :=",
+             "  [" + ";\n   ".join("(%s, %s)" % (cstr(k), table[k]) for k in want) + "].", "",
+             "(* scheme 'ca': the atoms taken as alpha carbons *)",
+             "Definition ca_pred : apred := %s." % ca_preds[0], "",
+             "(* contacts='all': a residue is kept under ignore_nonprotein iff some atom satisfies this; j starts at",
+             "   i + all_min_separation; pairs are restricted to one chain *)",
+             "Definition all_keep_pred : apred := %s." % keep_preds[0],
+             "Definition all_min_separation : nat := %d." % seps[0],
+             "Definition all_same_chain : bool := true.", ""]
+    return "\n".join(lines)
+
+
+REFERENCE_SCHEMES = """(* reference copy (contact.py of the pinned tree) *)
+From Coq Require Import String List.
+Import ListNotations.
+Require Import MD.Desc.SchemeDsl.
+
+Definition scheme_members : list (string * member) :=
+  [("closest"%string, (MFilter PTrue));
+   ("closest-heavy"%string, (MFilter (PNot (PElemIs "H"%string))));
+   ("sidechain"%string, (MFilter PSidechain));
+   ("sidechain-heavy"%string, (MIfRes (RNot (RNameEq "GLY"%string)) (MFilter (PAnd PSidechain (PNot (PElemIs "H"%string)))) (MFilter PSidechain)))].
+
+Definition ca_pred : apred := (PNameLowerEq "ca"%string).
+
+Definition all_keep_pred : apred := (PNameLowerEq "ca"%string).
+Definition all_min_separation : nat := 3.
+Definition all_same_chain : bool := true.
+"""
+
+
 def build_formulas_r():
     """the Karplus relation once more over R (for the trigonometric form of the theorem)"""
     text = _src("mdtraj/nmr/scalar_couplings.py")
@@ -476,11 +639,16 @@ def translate(ctx):
             "Definition j3_function_R (phi A B C phi0 : R) : R := "
             "(((A * ((cos (phi + phi0)) ^ 2)) + (B * (cos (phi + phi0)))) + C).", ""]))
     try:
+        ctx.write_gen("Gen/DescSchemes.v", build_schemes())
+    except (Untranslatable, OSError, SyntaxError, AttributeError) as e:
+        degraded.append("contact schemes: %s" % e)
+        ctx.write_gen("Gen/DescSchemes.v", REFERENCE_SCHEMES)
+    try:
         ctx.write_gen("Gen/DescTables.v", build_tables())
     except (Untranslatable, OSError, SyntaxError, AttributeError) as e:
         degraded.append("tables (previous Gen/DescTables.v kept): %s" % e)
     ctx.notes.setdefault("coverage_extra", {})["translator"] = (
-        "ok: Gen/DescTables.v, Gen/DescFormulas.v, Gen/DescFormulasR.v regenerated" if not degraded
+        "ok: Gen/DescTables.v, Gen/DescSchemes.v, Gen/DescFormulas.v, Gen/DescFormulasR.v regenerated" if not degraded
         else "degraded, reference copy used for: " + "; ".join(degraded))
     if degraded:
         raise Untranslatable("; ".join(degraded))
@@ -509,7 +677,7 @@ UNIT = 64
 SCHEMES = ["ca", "closest", "closest-heavy", "sidechain", "sidechain-heavy"]
 
 
-def coq_values(ctx, requires, in_ty, fn, inputs, shard=60, prelude=""):
+def coq_values(ctx, requires, in_ty, fn, inputs, shard=None, prelude=""):
     """vm_compute `fn input` for every input inside coqc; fn must return nested lists of Z only.
     Returns (list of parsed python lists, errors)."""
     from common import COQ
@@ -517,6 +685,8 @@ def coq_values(ctx, requires, in_ty, fn, inputs, shard=60, prelude=""):
     out = [None] * len(inputs)
     errors = []
     jobs = []
+    if shard is None:
+        shard = shard_for(len(inputs), lo=2)
     for si in range(0, len(inputs), shard):
         sh = inputs[si:si + shard]
         lines = ["From Coq Require Import ZArith List String Bool Ascii QArith.", "Import ListNotations.",
@@ -557,7 +727,7 @@ def coq_values(ctx, requires, in_ty, fn, inputs, shard=60, prelude=""):
         out[si:si + n] = vals
 
     while todo or running:
-        while todo and len(running) < 4:
+        while todo and len(running) < 8:
             si, n, p = todo.pop(0)
             pr = subprocess.Popen(["timeout", "900", "coqc", "-Q", COQ, "MD", p], cwd=ctx.tmp,
                                   stdout=subprocess.PIPE, stderr=subprocess.STDOUT, text=True)
@@ -587,6 +757,28 @@ def c_vec(v):
 
 def c_frames(xyz):
     return clist([clist([c_vec(v) for v in f]) for f in xyz])
+
+
+def c_cell(box):
+    if box is None:
+        return "None"
+    if isinstance(box, dict):
+        return "(Some (CTri %s %s %s))" % tuple(c_vec(v) for v in box["tri"])
+    return "(Some (COrth %s))" % c_vec(box)
+
+
+def gen_tri_box(rng, lo=200, hi=330):
+    """reduced triclinic cell on the grid: a = (ax,0,0), b = (bx,by,0), c = (cx,cy,cz), |bx|,|cx| <= ax/2, |cy| <= by/2"""
+    ax, by, cz = rng.randrange(lo, hi), rng.randrange(lo, hi), rng.randrange(lo, hi)
+    bx = rng.randint(-(ax // 2), ax // 2)
+    cx = rng.randint(-(ax // 2), ax // 2)
+    cy = rng.randint(-(by // 2), by // 2)
+    if rng.random() < 0.3:
+        bx = rng.choice([0, bx])
+        cx = rng.choice([0, cx])
+    if bx == 0 and cx == 0 and cy == 0:
+        cy = by // 3
+    return {"tri": [[ax, 0, 0], [bx, by, 0], [cx, cy, cz]]}
 
 
 def c_pairs_nat(ps):
@@ -675,15 +867,17 @@ def gen_contacts_case(rng, i):
                        p_twoca=0.12 if (scheme == "ca" and (i // 5) % 3 == 0) else (0.03 if i % 7 == 3 else 0.0))
     na = top_natoms(top)
     nf = rng.randint(1, 2)
-    case = {"kind": "contacts", "top": top, "unit": UNIT, "xyz": gen_xyz(rng, nf, na),
-            "box": gen_box(rng) if rng.random() < 0.6 else None, "periodic": rng.random() < 0.7,
+    tri = (i // 5) % 6 == 1
+    case = {"kind": "contacts", "top": top, "unit": UNIT, "xyz": gen_xyz(rng, nf, na, span=128 if tri else 256),
+            "box": gen_tri_box(rng) if tri else (gen_box(rng) if rng.random() < 0.6 else None),
+            "periodic": True if tri else rng.random() < 0.7,
             "scheme": scheme, "soft_min": (i // 5) % 3 == 2, "beta": None, "squareform": rng.random() < 0.4}
     if case["soft_min"] and rng.random() < 0.5:
         case["beta"] = rng.choice([5, 10, 20, 40])
     if (i // 15) % 2 == 0:
         case["contacts"] = "all"
-        if rng.random() < 0.4:
-            case["ignore_nonprotein"] = rng.random() < 0.5
+        if (i // 30) % 3 != 0:      # axis: default / True / False
+            case["ignore_nonprotein"] = (i // 30) % 3 == 1
     else:
         k = rng.randint(1, 6)
         prs = [[rng.randrange(n_res), rng.randrange(n_res)] for _ in range(k)]
@@ -702,7 +896,7 @@ def contacts_coq_case(case, strict):
         cs = "(CAll %s)" % cbool(case.get("ignore_nonprotein", True))
     else:
         cs = "(CExplicit %s)" % clist(["(%s, %s)" % (cz(a), cz(b)) for a, b in c])
-    box = "None" if case["box"] is None else "(Some %s)" % c_vec(case["box"])
+    box = c_cell(case["box"])
     return "(%s, %s, %s, %s, %s, %s, %s)" % (cbool(strict), c_raw_top(case["top"]),
                                             cnat(SCHEMES.index(case["scheme"].lower())), cs, box,
                                             cbool(case["periodic"]), c_frames(case["xyz"]))
@@ -734,7 +928,8 @@ def check_contacts(ctx, cases, results):
     jobs, coqcases = [], []
     for i in hard:
         c, r = cases[i], results[i]
-        if "err" not in r and r["resid"] > 1e-5:
+        tri = isinstance(c["box"], dict) and c["periodic"]
+        if "err" not in r and ((r["resid"] > 1e-5) if not tri else (r["resid_abs"] > 0.25 or r["resid"] > 2e-4)):
             ctx.break_("correspondence:contacts-exactness", "squared distance not recovered exactly (residual %g) on %s"
                        % (r["resid"], json.dumps(c)[:300]))
             continue
@@ -750,7 +945,7 @@ def check_contacts(ctx, cases, results):
             jobs.append((i, strict))
             coqcases.append((contacts_coq_case(c, strict), exp))
     bad, errs = ctx.coq_mismatches(["MD.Desc.ContactsModel"], ("ccase", "hres"), "hres_eqb", "run_contacts_min",
-                                   coqcases, shard=100)
+                                   coqcases, shard=shard_for(len(coqcases), lo=4))
     if errs:
         ctx.break_("correspondence:coqc-evaluation(contacts)", "\n".join(errs))
         return
@@ -837,8 +1032,11 @@ def check_contacts(ctx, cases, results):
     for c in cases:
         nt = c["contacts"] == "all" or len(c["contacts"]) > 1
         ctx.count(c, nontrivial=nt, bucket="contacts/%s/%s/%s%s" % (
-            c["scheme"].lower(), "all" if c["contacts"] == "all" else "explicit",
-            "soft" if c["soft_min"] else "min", "/pbc" if (c["periodic"] and c["box"]) else ""))
+            c["scheme"].lower(),
+            ("all" + {None: "", True: "+ignore", False: "+keep-nonprotein"}[c.get("ignore_nonprotein")])
+            if c["contacts"] == "all" else "explicit",
+            "soft" if c["soft_min"] else "min",
+            "/triclinic" if (c["periodic"] and isinstance(c["box"], dict)) else ("/pbc" if (c["periodic"] and c["box"]) else "")))
 
 
 def gen_squareform_case(rng):
@@ -915,6 +1113,9 @@ def c_zframes(xyz):
 
 
 QPRE = "From Coq Require Import QArith.\nClose Scope Q_scope."
+def shard_for(n, jobs=8, lo=1):
+    """cases per coqc job so that about `jobs` jobs run in parallel"""
+    return max(lo, -(-n // jobs))
 
 BOUNDS = {
     "centre_abs_nm": "1e-11", "gyration_abs_nm2": "1e-10", "principal_moment_coefficients_rel": "1e-9",
@@ -993,7 +1194,7 @@ def check_centres(ctx, cases, results):
     for fn, ty in (("run_com_sym", "Q * Z * list string * list (list zvec)"), ("run_cog", "Q * Z * list (list zvec)")):
         sub = [it for it in items if it[2] == fn]
         bad, errs = ctx.coq_mismatches(["MD.Desc.AlgebraModel"], (ty, "list Q"), "close_res", fn,
-                                       [(it[3], it[4]) for it in sub], shard=100, prelude=QPRE)
+                                       [(it[3], it[4]) for it in sub], shard=shard_for(len(sub), lo=2), prelude=QPRE)
         if errs:
             ctx.break_("correspondence:coqc-evaluation(centres)", "\n".join(errs))
             continue
@@ -1035,7 +1236,7 @@ def check_rg(ctx, cases, results):
             coq.append(("(%s, %s, %s, %s, %s)" % (cqf("2e-5"), cbool(fix), cz(UNIT), clist([cq(m) for m in ms]),
                                                   c_zframes(c["xyz"])), exp))
     bad, errs = ctx.coq_mismatches(["MD.Desc.AlgebraModel"], ("Q * bool * Z * list Q * list (list zvec)", "list Q"),
-                                   "close_res", "run_rg2", coq, shard=100, prelude=QPRE)
+                                   "close_res", "run_rg2", coq, shard=shard_for(len(coq), lo=2), prelude=QPRE)
     if errs:
         ctx.break_("correspondence:coqc-evaluation(rg)", "\n".join(errs))
         return
@@ -1075,7 +1276,7 @@ def check_shape(ctx, cases, results):
              "principal_moments are not the ascending roots of the characteristic polynomial of the gyration tensor"),
             ("shape", "run_shape", "Q * Z * list (list zvec * qvec * (Q * Q * Q))", s_in,
              "asphericity/acylindricity/relative_shape_antisotropy differ from their formulas in the principal moments")):
-        bad, errs = ctx.coq_mismatches(["MD.Desc.AlgebraModel"], (ty, "list Q"), "close_res", fn, inp, shard=60, prelude=QPRE)
+        bad, errs = ctx.coq_mismatches(["MD.Desc.AlgebraModel"], (ty, "list Q"), "close_res", fn, inp, shard=shard_for(len(inp)), prelude=QPRE)
         if errs:
             ctx.break_("correspondence:coqc-evaluation(%s)" % what, "\n".join(errs))
             continue
@@ -1117,7 +1318,7 @@ def check_density(ctx, cases, results):
             sym_in.append(("(%s, %s, %s)" % (cqf("2e-6"), clist([cstr(x) for x in atom_syms(c["top"])]), vols), exp))
     for fn, ty, inp, ix in (("run_density", "Q * list Q * list Q", mass_in, mi),
                             ("run_density_sym", "Q * list string * list Q", sym_in, si)):
-        bad, errs = ctx.coq_mismatches(["MD.Desc.AlgebraModel"], (ty, "list Q"), "close_res_rel", fn, inp, shard=100, prelude=QPRE)
+        bad, errs = ctx.coq_mismatches(["MD.Desc.AlgebraModel"], (ty, "list Q"), "close_res_rel", fn, inp, shard=shard_for(len(inp), lo=4), prelude=QPRE)
         if errs:
             ctx.break_("correspondence:coqc-evaluation(density)", "\n".join(errs))
             continue
@@ -1203,7 +1404,7 @@ def check_rdf(ctx, cases, results):
                          "(bins are wider than bin_width)", c, observed=r["n"], expected=int(round(q)),
                          tags={"kind": "rdf", "explained_by": "rdf_nbins_float_truncation_cur"})
     ctx.notes.setdefault("coverage_extra", {}).setdefault("excluded", {})["rdf_guard_band"] = excl
-    bad, errs = ctx.coq_mismatches(["MD.Desc.RdfModel"], ("rcase", "list Q"), "close_res_mixed", "run_rdf", inp, shard=40, prelude=QPRE)
+    bad, errs = ctx.coq_mismatches(["MD.Desc.RdfModel"], ("rcase", "list Q"), "close_res_mixed", "run_rdf", inp, shard=shard_for(len(inp)), prelude=QPRE)
     if errs:
         ctx.break_("correspondence:coqc-evaluation(rdf)", "\n".join(errs))
         return
@@ -1397,12 +1598,183 @@ def check_dipole(ctx, cases, results):
             break
 
 
+# ---- order.py: inertia tensor, directors, nematic order
+def c_raw_rows(top):
+    return clist(["(%s, %s, %s)" % (cstr(rn), cnat(ch), clist(["(%s, %s)" % (cstr(a), cstr(e)) for a, e in atoms]))
+                  for rn, ch, atoms in top])
+
+
+def _group_sizes(top, mode):
+    if mode == "residues":
+        return [len(r[2]) for r in top]
+    sizes, cur = [], None
+    for r in top:
+        if r[1] != cur:
+            sizes.append(0)
+            cur = r[1]
+        sizes[-1] += len(r[2])
+    return sizes
+
+
+def gen_order_case(rng, i):
+    mode = ["chains", "residues", "explicit"][i % 3]
+    while True:
+        top = gen_topology(rng, rng.randint(2, 5), p_odd=0.2, p_drop=0.1)
+        if mode == "residues":
+            top = [r for r in top if len(r[2]) >= 3]
+        if top and top_natoms(top) >= 4 and (mode == "explicit" or min(_group_sizes(top, mode)) >= 3):
+            break
+    na = top_natoms(top)
+    c = {"kind": "order", "top": top, "unit": UNIT, "xyz": gen_xyz(rng, rng.randint(1, 2), na), "box": None}
+    if mode == "explicit":
+        ng = rng.randint(1, 4)
+        c["indices"] = [sorted(rng.sample(range(na), rng.randint(3, min(na, 8)))) for _ in range(ng)]
+    else:
+        c["indices"] = mode if rng.random() < 0.8 else mode.upper()
+    return c
+
+
+def c_gspec(c):
+    g = c["indices"]
+    if isinstance(g, str):
+        return "GChains" if g.lower() == "chains" else "GResidues"
+    return "(GExplicit %s)" % clist([clist([cnat(a) for a in grp]) for grp in g])
+
+
+def c_qvec(v):
+    return "(%s, %s, %s)" % (cq(v[0]), cq(v[1]), cq(v[2]))
+
+
+def check_inertia(ctx, cases, results):
+    inp, idx = [], []
+    for i, (c, r) in enumerate(zip(cases, results)):
+        ctx.count(c, nontrivial=True, bucket="inertia")
+        v = r["I"]
+        if isinstance(v, dict) or not finite(v):
+            ctx.fail("compute_inertia_tensor fails or returns non-finite values", c, observed=v, expected="finite",
+                     tags={"kind": "inertia", "explained_by": None})
+            continue
+        idx.append(i)
+        inp.append(("(%s, %s, %s, %s)" % (cqf("1e-10"), cz(UNIT), clist([cstr(x) for x in atom_syms(c["top"])]),
+                                          c_zframes(c["xyz"])), clist([cq(x) for x in flat_q(v)])))
+    bad, errs = ctx.coq_mismatches(["MD.Desc.AlgebraModel", "MD.Desc.RdfModel", "MD.Desc.OrderModel"],
+                                   ("Q * Z * list string * list (list zvec)", "list Q"),
+                                   "close_res_mixed", "run_inertia", inp, shard=shard_for(len(inp)), prelude=QPRE)
+    if errs:
+        ctx.break_("correspondence:coqc-evaluation(inertia)", "\n".join(errs))
+        return
+    for k in bad:
+        ctx.fail("compute_inertia_tensor differs from sum m_i (|r_i-c|^2 delta_ab - (r_i-c)_a (r_i-c)_b) about the centre of mass",
+                 cases[idx[k]], observed=results[idx[k]], expected="Coq run_inertia", tags={"kind": "inertia", "explained_by": None})
+
+
+def check_order(ctx, cases, results):
+    ng, errs = coq_values(ctx, ["MD.Desc.OrderModel"], "list rawres * gspec", "run_ngroups",
+                          ["(%s, %s)" % (c_raw_rows(c["top"]), c_gspec(c)) for c in cases])
+    if errs:
+        ctx.break_("correspondence:coqc-evaluation(order groups)", "\n".join(errs))
+        return
+    d_in, n_in, didx, nidx = [], [], [], []
+    for i, (c, r) in enumerate(zip(cases, results)):
+        ctx.count(c, nontrivial=ng[i][0] > 1, bucket="order/%s" % (c["indices"].lower() if isinstance(c["indices"], str) else "explicit"))
+        d = r["directors"]
+        if isinstance(d, dict) or not finite(d) or isinstance(r["S2"], dict) or not finite(r["S2"]):
+            ctx.fail("compute_directors / compute_nematic_order fail or return non-finite values", c, observed=r,
+                     expected="directors, S2", tags={"kind": "order", "explained_by": None})
+            continue
+        if r["shape"] != [len(c["xyz"]), ng[i][0], 3]:
+            ctx.fail("compute_directors: number of groups differs from the chains/residues/index lists", c,
+                     observed=r["shape"], expected=[len(c["xyz"]), ng[i][0], 3], tags={"kind": "order", "explained_by": None})
+            continue
+        didx.append(i)
+        fl = clist(["(%s, %s)" % (clist([c_vec(v) for v in f]), clist([c_qvec(v) for v in dv]))
+                    for f, dv in zip(c["xyz"], d)])
+        d_in.append(("(%s, %s, %s, %s, %s)" % (cqf("1e-9"), cz(UNIT), c_raw_rows(c["top"]), c_gspec(c), fl),
+                     clist(["(Qmake 0 1)"] * (4 * ng[i][0] * len(c["xyz"])))))
+        nidx.append(i)
+        n_in.append(("(%s, %s)" % (cqf("1e-9"), clist(["(%s, %s)" % (clist([c_qvec(v) for v in dv]), cq(s2))
+                                                      for dv, s2 in zip(d, r["S2"])])),
+                     clist(["(Qmake 0 1)"] * (3 * len(c["xyz"])))))
+    for what, fn, ty, inp, ix, desc in (
+            ("directors", "run_directors", "Q * Z * list rawres * gspec * list (list zvec * list qvec)", d_in, didx,
+             "compute_directors: a director is not a unit eigenvector of the least eigenvalue of its group's inertia tensor"),
+            ("nematic", "run_nematic", "Q * list (list qvec * Q)", n_in, nidx,
+             "compute_nematic_order: S2 is not the largest eigenvalue of Q = 1/(2N) sum (3 e e^T - 1) of the directors")):
+        bad, errs = ctx.coq_mismatches(["MD.Desc.AlgebraModel", "MD.Desc.OrderModel"], (ty, "list Q"), "close_res", fn, inp,
+                                       shard=shard_for(len(inp)), prelude=QPRE)
+        if errs:
+            ctx.break_("correspondence:coqc-evaluation(%s)" % what, "\n".join(errs))
+            continue
+        for k in bad:
+            ctx.fail(desc, cases[ix[k]], observed=results[ix[k]], expected="Coq %s" % fn,
+                     tags={"kind": "order", "what": what, "explained_by": None})
+
+
+# ---- compute_rdf_t
+def gen_rdf_t_case(rng, i):
+    c = gen_rdf_case(rng, i if i % 4 != 3 else 0)
+    c["kind"] = "rdf_t"
+    nf = rng.randint(2, 4)
+    na = top_natoms(c["top"])
+    c["xyz"] = gen_xyz(rng, nf, na)
+    if isinstance(c["box"][0], list):
+        c["box"] = [gen_box(rng, 160, 330) for _ in range(nf)]
+    c["times"] = [[rng.randrange(nf), rng.randrange(nf)] for _ in range(rng.randint(1, 4))]
+    c["self_correlation"] = rng.random() < 0.6
+    c["period_length"] = None if rng.random() < 0.6 else rng.randint(1, nf + 2)
+    c["n_concurrent_pairs"] = None if rng.random() < 0.3 else rng.randint(1, 9)
+    return c
+
+
+def rdf_t_coq_case(c, tol="1e-5"):
+    rr = c["r_range"] or [[0, 1], [1, 1]]
+    if c["n_bins"] is not None:
+        b = "(inl %s)" % cnat(c["n_bins"])
+    else:
+        b = "(inr %s)" % cq(c["bin_width"] or list((0.005).as_integer_ratio()))
+    frames = clist(["(%s, %s)" % (c_vec(bx), clist([c_vec(v) for v in f])) for bx, f in zip(box_per_frame(c), c["xyz"])])
+    return "(%s, %s, %s, %s, %s, %s, %s, %s, %s, %s, %s)" % (
+        cqf(tol), cz(UNIT), cq(rr[0]), cq(rr[1]), b, c_pairs_nat(c["pairs"]), cbool(c["periodic"]), frames,
+        c_pairs_nat(c["times"]), cbool(c["self_correlation"]), copt(c["period_length"], cnat))
+
+
+def check_rdf_t(ctx, cases, results):
+    guards, errs = coq_values(ctx, ["MD.Desc.RdfModel"], "rtcase", "run_rdf_t_guard", [rdf_t_coq_case(c) for c in cases])
+    if errs:
+        ctx.break_("correspondence:coqc-evaluation(rdf_t guard)", "\n".join(errs))
+        return
+    inp, idx, excl = [], [], 0
+    for i, (c, r) in enumerate(zip(cases, results)):
+        if guards[i] != [1]:
+            excl += 1
+            continue
+        ctx.count(c, nontrivial=len(c["pairs"]) > 1, bucket="rdf_t/%s%s" % (
+            "self" if c["self_correlation"] else "noself", "/chunks" if c["n_concurrent_pairs"] else ""))
+        if "err" in r or not finite(r["r"]) or not finite(r["g"]) or r["shape"] != [len(c["times"]), r["n"]]:
+            ctx.fail("compute_rdf_t fails, returns non-finite values or a wrong shape", c, observed=r, expected="r, g(r,t)",
+                     tags={"kind": "rdf_t", "explained_by": None})
+            continue
+        idx.append(i)
+        inp.append((rdf_t_coq_case(c), clist([cqf(r["n"])] + [cq(x) for x in r["r"]] + [cq(x) for x in flat_q(r["g"])])))
+    ctx.notes.setdefault("coverage_extra", {}).setdefault("excluded", {})["rdf_t_guard_band"] = excl
+    bad, errs = ctx.coq_mismatches(["MD.Desc.RdfModel"], ("rtcase", "list Q"), "close_res_mixed", "run_rdf_t", inp, shard=shard_for(len(inp)),
+                                   prelude=QPRE)
+    if errs:
+        ctx.break_("correspondence:coqc-evaluation(rdf_t)", "\n".join(errs))
+        return
+    for k in bad:
+        ctx.fail("compute_rdf_t: g(r,t) differs from counts/((n_pairs/period_length)*sum(1/V)*4/3 pi (r_hi^3-r_lo^3)) over the "
+                 "(self +) given pairs between the two frames", cases[idx[k]], observed=results[idx[k]], expected="Coq run_rdf_t",
+                 tags={"kind": "rdf_t", "explained_by": None})
+
+
 # =====================================================================================
 # driver
 # =====================================================================================
 CHECKS = {"contacts": check_contacts, "squareform": check_squareform, "centres": check_centres, "rg": check_rg,
           "shape": check_shape, "density": check_density, "rdf": check_rdf, "drid": check_drid,
-          "karplus": check_karplus, "dipole": check_dipole}
+          "karplus": check_karplus, "dipole": check_dipole, "inertia": check_inertia, "order": check_order,
+          "rdf_t": check_rdf_t}
 
 
 def fixed_probes():
@@ -1457,15 +1829,20 @@ def build_cases(ctx):
     cases += [gen_drid_case(rng) for _ in range(30 * k)]
     cases += [gen_karplus_case(rng) for _ in range(30 * k)]
     cases += [gen_dipole_case(rng) for _ in range(12 * k)]
+    cases += [gen_geom_case(rng, "inertia") for _ in range(15 * k)]
+    cases += [gen_order_case(rng, i) for i in range(24 * k)]
+    cases += [gen_rdf_t_case(rng, i) for i in range(24 * k)]
     return cases
 
 
 def run_cases(ctx, cases):
     results = run_impl(ctx, cases)
+    ctx.log("implementation run done")
     for kind, fn in CHECKS.items():
         idx = [i for i, c in enumerate(cases) if c["kind"] == kind]
         if idx:
             fn(ctx, [cases[i] for i in idx], [results[i] for i in idx])
+            ctx.log("checked %s (%d cases)" % (kind, len(idx)))
 
 
 def correspond(ctx):
